@@ -76,6 +76,10 @@ def _formula_sets(tier):
             ('once', (0, 1), pb), ('always', (1, 2), sb), ('since', None, pb, ('pred', '>', F.Y, F.C0)), ('pred', '==', F.X, F.Y),
             ('pred', '!==', sb, ('const', 2 * big)), ('abs', ('-', F.Y, F.X)), ('rise', pb), ('prev', sb), ('until', (0, 1), F.X, sb)]
     sets.append(('Big', bigf, (big, big + 1.0, big + 2.0), 3))
+    # IntData: the samples are Python ints (and the variables declared int in the second variant) - users rarely write 2.0 for 2
+    intf = [f for f in F.F(1, F.unary_ops(Iq), F.binary_ops(Iq), [(F.PX, F.PY, F.X)])] + \
+        [('pred', '>=', t, F.C0) for t in F.arith_terms(1) if t[0] not in ('sqrt', 'ln', 'log', 'exp')] + [f for f in F.patterns()][:12]
+    sets.append(('IntData', intf, (-1, 0, 2), 3))
     # S5: temporal operators directly over arithmetic terms and bare variables, three variables (one unused)
     sets.append(('Unused', [('once', (0, 1), ('-', F.X, F.Y)), ('always', (1, 2), ('neg', F.X)), ('until', None, F.X, ('abs', F.Y))],
                  F.V2, 3))
@@ -114,7 +118,7 @@ def check_case(case, spec=None):
     except refsem.DomainError:
         return None
     if spec is None:
-        spec = impl.build('dt_off', case['spec'], case['vars'], combined=case.get('combined', False))
+        spec = impl.build('dt_off', case['spec'], case['vars'], combined=case.get('combined', False), var_type=case.get('var_type', 'float'))
         for pre in case.get('pre', []):
             impl.outcome(impl.dt_evaluate, spec, pre['trace'], pre['times'])
     kind, val = impl.outcome(impl.dt_evaluate, spec, w, case['times'])
@@ -131,10 +135,13 @@ def run_shard(shard, tier, res):
         decl = vs + (['z'] if shard['tag'] == 'Unused' else [])
         text = 'out = ' + F.pr(f)
         res.formulas += 1
-        variants = [False, True] if shard['tag'] in ('F1', 'Unused') else [False]
+        variants = [False, True] if shard['tag'] in ('F1', 'Unused', 'IntData') else [False]
         for combined in variants:
             try:
-                spec = impl.build('dt_off', text, decl, combined=combined)
+                if shard['tag'] == 'IntData':
+                    spec = impl.build('dt_off', text, decl, var_type='int' if combined else 'float')
+                else:
+                    spec = impl.build('dt_off', text, decl, combined=combined)
             except Exception as e:
                 res.violation(_mod(), {'formula': fj, 'spec': text, 'vars': decl, 'combined': combined,
                                        'trace': {}, 'times': []}, 'parse() raised %s: %s' % (type(e).__name__, e))
@@ -151,6 +158,8 @@ def run_shard(shard, tier, res):
                 w = F.trace_dict(t, decl)
                 times = TIMECOLS[ti % 3](len(t))
                 case = {'formula': fj, 'spec': text, 'vars': decl, 'combined': combined, 'trace': w, 'times': times}
+                if shard['tag'] == 'IntData':
+                    case.update(combined=False, var_type='int' if combined else 'float')
                 if shard['tag'] == 'Big':
                     case['exact'] = True
                 res.evaluations += 1
